@@ -571,16 +571,16 @@ func famPlan(tr *Trace, scratch string, seed int64, tier string, workers int) M 
 	nVal := 0
 	{
 		vl := [][]Entry{
-			{{Type: "file", Src: "s/f1", Dst: "/a/x"}, {Type: "ghost", Dst: "/a/x"}},                 // collides for rpm only
+			{{Type: "file", Src: "s/f1", Dst: "/a/x"}, {Type: "ghost", Dst: "/a/x"}}, // collides for rpm only
 			{{Type: "ghost", Dst: "/a/x"}, {Type: "file", Src: "s/f1", Dst: "/a/x"}},
-			{{Type: "doc", Src: "s/f1", Dst: "/a/doc"}, {Type: "symlink", Src: "tgt", Dst: "/a/doc"}}, // rpm only
+			{{Type: "doc", Src: "s/f1", Dst: "/a/doc"}, {Type: "symlink", Src: "tgt", Dst: "/a/doc"}},                         // rpm only
 			{{Type: "file", Src: "s/f1", Dst: "/a/x", Tag: "apk"}, {Type: "file", Src: "s/f2.conf", Dst: "/a/x", Tag: "apk"}}, // apk only
 			{{Type: "file", Src: "s/f1", Dst: "/a/x", Tag: "ipk"}, {Type: "dir", Dst: "/a/x", Tag: "ipk"}},                    // ipk only
-			{{Type: "file", Src: "s/f1", Dst: "/a/x", Tag: "deb"}, {Type: "file", Src: "s/f2.conf", Dst: "/a/x", Tag: "rpm"}},  // nowhere
+			{{Type: "file", Src: "s/f1", Dst: "/a/x", Tag: "deb"}, {Type: "file", Src: "s/f2.conf", Dst: "/a/x", Tag: "rpm"}}, // nowhere
 			{{Type: "file", Src: "s/f1", Dst: "/a/x"}, {Type: "licence", Src: "s/f1", Dst: "/a/y"}},                           // nowhere
 			{{Type: "readme", Src: "s/f1", Dst: "/a/x"}, {Type: "ghost", Dst: "/a/x/below"}},                                  // rpm only: beneath a file
 			{{Type: "file", Src: "s/f1", Dst: "/a/x", Tag: "archlinux"}, {Type: "symlink", Src: "tgt", Dst: "/a/x", Tag: "archlinux"}},
-			{{Type: "file", Src: "s/nope", Dst: "/a/x", Tag: "rpm"}},                                                            // no match, rpm only
+			{{Type: "file", Src: "s/nope", Dst: "/a/x", Tag: "rpm"}}, // no match, rpm only
 			{{Type: "file", Src: "s/f1", Dst: "/a/x"}},
 		}
 		for _, es := range vl {
